@@ -317,7 +317,13 @@ func cmdCheck(args []string) int {
 			}
 		}
 	}
-	if len(retry) > 0 && len(retry) <= 6 {
+	hardFail := false
+	for _, o := range solverObls {
+		if (o.Status == "failed" && !strings.Contains(o.Solver, "+relaxed")) || o.Status == "skipped" {
+			hardFail = true // a solver produced a genuine counterexample (or we already stopped early): no point retrying
+		}
+	}
+	if len(retry) > 0 && len(retry) <= 3 && !hardFail {
 		for _, o := range retry {
 			o.Status, o.Solver, o.Output, o.Model = "", "", "", ""
 		}
